@@ -6,9 +6,11 @@
   beyond the start cursor — each once, in key order (descending for the reverse forms) — and
   terminates, for every duplicate-free sorted population of non-empty names, every COUNT in 1..5000,
   every start cursor, both directions. The paging core is `Z.Paged.scanAll_eq`, parametric in the order.
-  Key scans (ADVSCAN with the table-boundary rule): differential + oracle only (see `partial`).
+  Key scans (ADVSCAN / ADVREVSCAN over one table, with the node's next-cursor and table-boundary rules): second part of
+  this file (`C13_key_scan_*`), over `Data/ScanKeyLemmas.lean`.
 -/
 import ZanVerif.Data.ScanLemmas
+import ZanVerif.Data.ScanKeyLemmas
 
 namespace Z.Props.C13
 open Z.Scan Z.IterP
@@ -76,5 +78,189 @@ example : (collFull ([[97], [97, 48], [98], [109]].filter (fun k => [97].isPrefi
 /-! non-vacuity -/
 example : (collFull [[1], [1, 0], [2], [3]] 2 false 10 [] 0).1 = [[1], [1, 0], [2], [3]] := by decide
 example : (collFull [[1], [1, 0], [2], [3]] 2 true 10 [9] 0).1 = [[3], [2], [1, 0], [1]] := by decide
+
+
+/-! ## key scans: ADVSCAN / ADVREVSCAN over ONE TABLE of a store that holds any number of tables
+
+  `ks` = the raw keys `table:key` the store holds for the scanned type, ascending and duplicate-free, of ANY tables
+  (also keys without ':'); `t` = the addressed table, any byte string without ':' (58) - also the empty one, also one
+  that is a prefix / neighbour of other tables (`t`, `t!`, `t0`); `cur` = ANY start cursor (the key part; it may hold
+  ':' and need not be a key). `advFull` is the client loop "feed the returned cursor back as `t:cursor` until it is
+  empty" over `advPage` = node/scan.go `advanceScanCommand` (next cursor = key part of the last key unless the page is
+  shorter than COUNT; a page whose last key is of another table is cut at the boundary and ends the scan) over the
+  store page (first `checkScanCount COUNT` keys beyond the raw cursor). No hypothesis on the keys: a key `t:` with an
+  empty key part, keys that are prefixes of each other, a last page that is exactly full are all covered.
+  The answer is a `filter` of `ks`: each key at most once, in the order of `ks`, only keys of table `t`, and every key of
+  `t` beyond the cursor. -/
+
+/-- **forward key scan** (ADVSCAN), `1 ≤ COUNT ≤ 5000`: exactly the keys of table `t` beyond `t:cur`, each once,
+    ascending, nothing of a neighbouring table; terminates after exactly ⌊results / COUNT⌋ + 1 rounds. -/
+theorem C13_key_scan_forward (ks : List Bytes) (hs : ks.Pairwise (· < ·)) (t : Bytes) (ht : (58 : UInt8) ∉ t)
+    (c : Int) (h1 : 1 ≤ c) (h2 : c ≤ 5000) (cur : Bytes) (fuel : Nat)
+    (hfuel : keyScanFuel (ks.filter (fun k => tableIs t k && decide (t ++ [58] ++ cur < k))).length c ≤ fuel) :
+    ∃ rounds, advFull ks t c false fuel cur 0
+        = some (ks.filter (fun k => tableIs t k && decide (t ++ [58] ++ cur < k)), rounds) ∧
+      rounds = (ks.filter (fun k => tableIs t k && decide (t ++ [58] ++ cur < k))).length / c.toNat + 1 := by
+  have e := tpart_fwd hs t cur ht
+  obtain ⟨r, h, _, _, _, hex⟩ := advFull_main ks hs t ht c h1 h2 false fuel cur
+    (by rw [e]; unfold keyScanFuel at hfuel; omega)
+  rw [e] at h hex
+  exact ⟨r, h, hex (e ▸ empty_key_not_in_tpart_fwd ks t cur)⟩
+
+/-- **reverse key scan** (ADVREVSCAN), `1 ≤ COUNT ≤ 5000`: exactly the keys of table `t` before `t:cur`, each once,
+    descending; terminates after ⌊results / COUNT⌋ + 1 rounds, or one round less (possible only if the store holds the key
+    `t:` with the empty key part: a full page that ends with it hands out the empty cursor). -/
+theorem C13_key_scan_reverse (ks : List Bytes) (hs : ks.Pairwise (· < ·)) (t : Bytes) (ht : (58 : UInt8) ∉ t)
+    (c : Int) (h1 : 1 ≤ c) (h2 : c ≤ 5000) (cur : Bytes) (fuel : Nat)
+    (hfuel : keyScanFuel (ks.filter (fun k => tableIs t k && decide (k < t ++ [58] ++ cur))).length c ≤ fuel) :
+    ∃ rounds, advFull ks t c true fuel cur 0
+        = some ((ks.filter (fun k => tableIs t k && decide (k < t ++ [58] ++ cur))).reverse, rounds) ∧
+      (ks.filter (fun k => tableIs t k && decide (k < t ++ [58] ++ cur))).length / c.toNat ≤ rounds ∧ 1 ≤ rounds ∧
+      rounds ≤ (ks.filter (fun k => tableIs t k && decide (k < t ++ [58] ++ cur))).length / c.toNat + 1 ∧
+      ((t ++ [58]) ∉ ks →
+        rounds = (ks.filter (fun k => tableIs t k && decide (k < t ++ [58] ++ cur))).length / c.toNat + 1) := by
+  have e := tpart_rev hs t cur ht
+  have hl : (tpart ks t cur true).length = (ks.filter (fun k => tableIs t k && decide (k < t ++ [58] ++ cur))).length := by
+    rw [e, List.length_reverse]
+  obtain ⟨r, h, hlo, hpos, hhi, hex⟩ := advFull_main ks hs t ht c h1 h2 true fuel cur
+    (by rw [hl]; unfold keyScanFuel at hfuel; omega)
+  rw [hl] at hlo hhi hex
+  rw [e] at h hex
+  refine ⟨r, h, hlo, hpos, hhi, fun hn => hex (fun hm => hn ?_)⟩
+  exact (List.mem_filter.mp (List.mem_reverse.mp hm)).1
+
+/-- **MATCH** on key scans: the store skips the keys that do not match while it counts to COUNT, so a scan with a filter
+    pages over the matching keys only (that the real MATCH scan IS `advFull` over the filtered population is what the
+    `fullm` lines of protocol `scan` compare, for prefix patterns `t:<prefix>*`). For every decidable filter `p`, both
+    directions: exactly the matching keys of table `t` beyond the cursor, each once, in scan order. -/
+theorem C13_key_scan_match (ks : List Bytes) (hs : ks.Pairwise (· < ·)) (t : Bytes) (ht : (58 : UInt8) ∉ t)
+    (p : Bytes → Bool) (c : Int) (h1 : 1 ≤ c) (h2 : c ≤ 5000) (rev : Bool) (cur : Bytes) (fuel : Nat)
+    (hfuel : keyScanFuel ((keyScanSpec ks t cur rev).filter p).length c ≤ fuel) :
+    ∃ rounds, advFull (ks.filter p) t c rev fuel cur 0 = some ((keyScanSpec ks t cur rev).filter p, rounds) ∧
+      ((keyScanSpec ks t cur rev).filter p).length / c.toNat ≤ rounds ∧
+      rounds ≤ ((keyScanSpec ks t cur rev).filter p).length / c.toNat + 1 := by
+  have hs' : (ks.filter p).Pairwise (· < ·) := hs.filter p
+  have e : tpart (ks.filter p) t cur rev = (keyScanSpec ks t cur rev).filter p := by
+    rw [tpart_eq_spec hs' t cur ht rev]
+    cases rev
+    · simp only [keyScanSpec, Bool.false_eq_true, if_false, List.filter_filter]
+      apply List.filter_congr; intro k _; exact Bool.and_comm _ _
+    · simp only [keyScanSpec, if_true, List.filter_filter, List.filter_reverse]
+      congr 1
+      apply List.filter_congr; intro k _; exact Bool.and_comm _ _
+  obtain ⟨r, h, hlo, _, hhi, _⟩ := advFull_main (ks.filter p) hs' t ht c h1 h2 rev fuel cur
+    (by rw [e]; unfold keyScanFuel at hfuel; omega)
+  rw [e] at h hlo hhi
+  exact ⟨r, h, hlo, hhi⟩
+
+/-- **COUNT omitted / 0** (`checkScanCount`: pages of 100; a negative COUNT is refused by `parseScanArgs` before the
+    handler gets here): the same answer, both directions; the node calls only the EMPTY page the last one, so the scan
+    may need one more round: at most ⌊results / 100⌋ + 2. -/
+theorem C13_key_scan_default_count (ks : List Bytes) (hs : ks.Pairwise (· < ·)) (t : Bytes) (ht : (58 : UInt8) ∉ t)
+    (c : Int) (h0 : c ≤ 0) (rev : Bool) (cur : Bytes) (fuel : Nat)
+    (hfuel : (keyScanSpec ks t cur rev).length / 100 + 2 ≤ fuel) :
+    ∃ rounds, advFull ks t c rev fuel cur 0 = some (keyScanSpec ks t cur rev, rounds) ∧
+      (keyScanSpec ks t cur rev).length / 100 ≤ rounds ∧ rounds ≤ (keyScanSpec ks t cur rev).length / 100 + 2 := by
+  have e := tpart_eq_spec hs t cur ht rev
+  obtain ⟨r, h, hlo, _, hhi⟩ := advFull_default ks hs t ht c h0 rev fuel cur (by rw [e]; omega)
+  rw [e] at h hlo hhi
+  exact ⟨r, h, hlo, hhi⟩
+
+/-- **every COUNT ≥ 1** (the property's "any COUNT"): the node clamps COUNT to the store's page limit when it parses it
+    (`parseCount`, regenerated from parseScanArgs: Gen/Scan.lean — since fix fbc9256), so the client loop is complete for every
+    COUNT, forwards and in reverse -/
+theorem C13_key_scan_any_count (ks : List Bytes) (hs : ks.Pairwise (· < ·)) (t : Bytes) (ht : (58 : UInt8) ∉ t)
+    (c : Int) (h1 : 1 ≤ c) (rev : Bool) (cur : Bytes) (fuel : Nat)
+    (hfuel : keyScanFuel (keyScanSpec ks t cur rev).length (parseCount c) ≤ fuel) :
+    ∃ rounds, advFull ks t (parseCount c) rev fuel cur 0 = some (keyScanSpec ks t cur rev, rounds) := by
+  have hb : 1 ≤ parseCount c ∧ parseCount c ≤ 5000 := by
+    unfold parseCount Gen.parseCount Gen.scanMaxCount; split <;> omega
+  cases rev with
+  | false =>
+    obtain ⟨r, h, _⟩ := C13_key_scan_forward ks hs t ht (parseCount c) hb.1 hb.2 cur fuel (by simpa [keyScanSpec] using hfuel)
+    exact ⟨r, by simpa [keyScanSpec] using h⟩
+  | true =>
+    obtain ⟨r, h, _⟩ := C13_key_scan_reverse ks hs t ht (parseCount c) hb.1 hb.2 cur fuel (by simpa [keyScanSpec] using hfuel)
+    exact ⟨r, by simpa [keyScanSpec] using h⟩
+
+example : parseCount 6000 = 5000 ∧ parseCount 17 = 17 := by decide
+
+/-- **why the clamp is needed — the defect repaired by fbc9256.** WITHOUT it (COUNT > 5000 reaching the loop unclamped): the
+    store clamps the page to 5000 keys (`checkScanCount`), the node compares the page length with the UNCLAMPED count
+    (`length < count`), so every page is "the last one": the client loop ends after ONE round with the first 5000 keys of
+    the answer and the empty cursor - for every population, table, cursor, direction and fuel. (This is what the real node
+    did before the fix: notes/probes/C13-count-over-5000.*; the witness ops are replayed from corpus/C13 on every run now.) -/
+theorem C13_key_scan_count_over_5000 (ks : List Bytes) (hs : ks.Pairwise (· < ·)) (t : Bytes) (ht : (58 : UInt8) ∉ t)
+    (c : Int) (hc : 5000 < c) (rev : Bool) (cur : Bytes) (fuel : Nat) :
+    advFull ks t c rev (fuel + 1) cur 0 = some ((keyScanSpec ks t cur rev).take 5000, 1) := by
+  rw [← tpart_eq_spec hs t cur ht rev]
+  exact advFull_over ks hs t ht c hc rev fuel cur 0
+
+/-- … hence a table with more than 5000 keys beyond the cursor is never scanned completely with COUNT > 5000 -/
+theorem C13_key_scan_count_over_5000_incomplete (ks : List Bytes) (hs : ks.Pairwise (· < ·)) (t : Bytes)
+    (ht : (58 : UInt8) ∉ t) (c : Int) (hc : 5000 < c) (rev : Bool) (cur : Bytes) (fuel : Nat)
+    (hmore : 5000 < (keyScanSpec ks t cur rev).length) (rounds : Nat) :
+    advFull ks t c rev (fuel + 1) cur 0 ≠ some (keyScanSpec ks t cur rev, rounds) := by
+  rw [C13_key_scan_count_over_5000 ks hs t ht c hc rev cur fuel]
+  intro h
+  have h' : (keyScanSpec ks t cur rev).take 5000 = keyScanSpec ks t cur rev := by
+    simpa using congrArg (fun o => o.map Prod.fst) h
+  have := congrArg List.length h'
+  rw [List.length_take] at this
+  omega
+
+set_option maxRecDepth 100000 in
+/-- witness, by evaluation of the model (population: 5001 keys `t:<hi><lo>` of one table; replayed on the real node: same
+    answer): the client loop of ADVSCAN with COUNT 5001 ends after one round with the first 5000 keys - the 5001st key
+    `t:\x13\x88` is never returned -/
+theorem C13_key_scan_count_over_5000_witness :
+    advFull (manyKeys 5001) [116] 5001 false 2001 [] 0 = some ((manyKeys 5001).take 5000, 1) ∧
+    (keyScanSpec (manyKeys 5001) [116] [] false).length = 5001 := by
+  decide +kernel
+
+/-- the hypothesis `58 ∉ t` is needed (and harmless: a raw key `a:b:x` IS a key of table `a`): for the "table" `a:b` the
+    handler extracts table `a` from the cursor and returns `a:b:x`, while no key has table `a:b` -/
+theorem C13_key_scan_table_with_colon_witness :
+    advFull [[97, 58, 98, 58, 120]] [97, 58, 98] 3 false 5 [] 0 = some ([[97, 58, 98, 58, 120]], 1) ∧
+    keyScanSpec [[97, 58, 98, 58, 120]] [97, 58, 98] [] false = [] := by
+  decide
+
+/-! non-vacuity (key scans) on `demoKeys` = `s:a  t!:a  t0:b  t:  t:a  t:a:b  t:b  u:a  u:b` (five tables, neighbours
+    `t!:` < `t0:` < `t:` in byte order, the key `t:` with the empty key part, prefixes of each other, a key part with ':') -/
+example := C13_key_scan_forward demoKeys (by decide) [116] (by decide) 2 (by decide) (by decide) [] 2 (by decide)
+-- forward, COUNT 2: pages [t:a, t:a:b] (full, next cursor `a:b`), [t:b | u:a] (cut at the table boundary)
+example : advFull demoKeys [116] 2 false 2001 [] 0 = some ([[116, 58, 97], [116, 58, 97, 58, 98], [116, 58, 98]], 2) := by decide
+-- forward, COUNT 3: the last page of the table is exactly full, one more round that is cut to nothing
+example : advFull demoKeys [116] 3 false 2001 [] 0 = some ([[116, 58, 97], [116, 58, 97, 58, 98], [116, 58, 98]], 2) := by decide
+-- the neighbour tables `t!` (from a cursor that is not a key) and `t0`, between `s:` and `t:`; the empty table name
+example : advFull demoKeys [116, 33] 1 false 2001 [0] 0 = some ([[116, 33, 58, 97]], 2) := by decide
+example : advFull demoKeys [116, 48] 5 false 2001 [] 0 = some ([[116, 48, 58, 98]], 1) := by decide
+example : advFull [[58, 97], [97, 58, 98]] [] 1 false 2001 [] 0 = some ([[58, 97]], 2) := by decide
+example := C13_key_scan_reverse demoKeys (by decide) [116] (by decide) 2 (by decide) (by decide) [255, 255, 255] 3 (by decide)
+-- reverse from `t:\xff\xff\xff`, COUNT 2: [t:b, t:a:b], [t:a, t:] - a full page ending with `t:` = empty cursor: 4/2 rounds
+example : advFull demoKeys [116] 2 true 2001 [255, 255, 255] 0
+    = some ([[116, 58, 98], [116, 58, 97, 58, 98], [116, 58, 97], [116, 58]], 2) := by decide
+-- reverse, COUNT 3: [t:b, t:a:b, t:a], [t: | t0:b, t!:a] cut at the boundary: 4/3 + 1 rounds
+example : advFull demoKeys [116] 3 true 2001 [255, 255, 255] 0
+    = some ([[116, 58, 98], [116, 58, 97, 58, 98], [116, 58, 97], [116, 58]], 2) := by decide
+-- reverse from a cursor inside the table; the empty start cursor yields nothing in reverse
+example : advFull demoKeys [116] 1 true 2001 [97, 58] 0 = some ([[116, 58, 97], [116, 58]], 2) := by decide
+example : advFull demoKeys [116] 1 true 2001 [] 0 = some ([], 1) := by decide
+-- MATCH t:a* (prefix pattern as the driver applies it), COUNT 1
+example := C13_key_scan_match demoKeys (by decide) [116] (by decide) (fun k => [116, 58, 97].isPrefixOf k) 1 (by decide) (by decide)
+  false [] 3 (by decide)
+example : advFull (demoKeys.filter (fun k => [116, 58, 97].isPrefixOf k)) [116] 1 false 2001 [] 0
+    = some ([[116, 58, 97], [116, 58, 97, 58, 98]], 3) := by decide
+-- COUNT 0 = default 100: a short page inside the table is not called last, a second (empty) round ends the scan (forward
+-- example); the reverse example ends in its first round at the table boundary
+example := C13_key_scan_default_count demoKeys (by decide) [117] (by decide) 0 (by decide) true [255] 2 (by decide)
+example : advFull demoKeys [117] 0 false 2001 [] 0 = some ([[117, 58, 97], [117, 58, 98]], 2) := by decide
+example : advFull demoKeys [117] 0 true 2001 [255] 0 = some ([[117, 58, 98], [117, 58, 97]], 1) := by decide
+-- COUNT > 5000: one round whatever the fuel; on 5001 keys (sortedness by the linear test `chainLt`) the scan is incomplete
+example := C13_key_scan_count_over_5000 demoKeys (by decide) [116] (by decide) 5001 (by decide) true [255] 7
+set_option maxRecDepth 100000 in
+example : ∀ rounds, advFull (manyKeys 5001) [116] 5001 false 2001 [] 0 ≠ some (keyScanSpec (manyKeys 5001) [116] [] false, rounds) :=
+  C13_key_scan_count_over_5000_incomplete (manyKeys 5001) (pairwise_of_chainLt _ (by decide +kernel)) [116] (by decide) 5001
+    (by decide) false [] 2000 (by rw [C13_key_scan_count_over_5000_witness.2]; decide)
 
 end Z.Props.C13
